@@ -21,7 +21,7 @@ type genCtx struct {
 
 func (g *genCtx) centre() int64 {
 	if g.r.Intn(25) == 0 {
-		return hx.Pick(g.r, []int64{0, 1, 2, 10, 11, 5, -1})
+		return hx.Pick(g.r, []int64{0, 1, 2, 3, 10, 11, 5, -1})
 	}
 	return hx.Pick(g.r, g.centres)
 }
@@ -90,7 +90,7 @@ func genRandom(r *rand.Rand, maxLen int) []hx.T {
 	case 3:
 		g.centres = []int64{0, 1, 10}
 	default:
-		g.centres = []int64{0, 1, 2, 10, 11}
+		g.centres = []int64{0, 1, 2, 3, 10, 11}
 	}
 	var ops []hx.T
 	for pid := int64(1); pid <= 5; pid++ {
@@ -111,8 +111,10 @@ func genRandom(r *rand.Rand, maxLen int) []hx.T {
 			ops = append(ops, hx.C("ODrain", g.centre(), 1+r.Int63n(4)))
 		case p < 75:
 			ops = append(ops, hx.C("OAct", hx.C("AGPub", g.nameTok(), g.args(), 1+r.Int63n(2))))
-		case p < 78:
+		case p < 77:
 			ops = append(ops, hx.C("OSetChan", g.centre(), r.Intn(2) == 0))
+		case p < 78:
+			ops = append(ops, hx.C("ODiscard", g.centre(), 1+r.Int63n(3)))
 		case p < 80:
 			ops = append(ops, hx.C("ODef", 1+r.Int63n(5), g.prog()))
 		default:
@@ -143,6 +145,90 @@ func genBoundary(r *rand.Rand, variant int) []hx.T {
 		// a channel-mode Publish by the owner on a (nearly) full queue: blocks for ever
 		ops = append(ops, hx.C("OAct", hx.C("APub", c, 1, []int64{6})), hx.C("OAct", hx.C("APub", c, 1, []int64{6})),
 			hx.C("ODrain", c, 1))
+	}
+	return ops
+}
+
+// Global fan-out under full queues: 2-4 local centres GSubscribe the same 1-3 shared names;
+// some of them are filled to 997..1000 pending events through a private name (one compact
+// AGPub), shared names are published before / at / after the fill level, full centres are
+// partially drained in between, and at the end every queue is read back completely (ODrain
+// for the short ones, one ODiscard for the long ones).  A centre whose own queue has room
+// must receive every publication exactly once whatever the other queues hold; Go's Range order
+// over the subscribed centres differs per name and per call, hence several names and rounds.
+func genFill(r *rand.Rand) []hx.T {
+	all := []int64{0, 1, 2, 3}
+	r.Shuffle(len(all), func(i, j int) { all[i], all[j] = all[j], all[i] })
+	cs := all[:2+r.Intn(3)]
+	ns := int64(1 + r.Intn(3))
+	var ops []hx.T
+	if r.Intn(3) == 0 {
+		// a listener that publishes globally again when it is invoked
+		ops = append(ops, hx.C("ODef", 1, []hx.T{hx.C("AGPub", 1+r.Int63n(ns), []int64{77}, 1)}))
+	}
+	for _, c := range cs {
+		for n := int64(1); n <= ns; n++ {
+			pid := int64(0)
+			if r.Intn(6) == 0 {
+				pid = 1
+			}
+			ops = append(ops, hx.C("OAct", hx.C("ASub", c, n, 1, 0, []int64{c*10 + n}, pid)))
+		}
+		ops = append(ops, hx.C("OAct", hx.C("ASub", c, 20+c, 1, 0, []int64{}, 0)))
+	}
+	round := func(tag int64) (total int64) {
+		for n := int64(1); n <= ns; n++ {
+			k := int64(1)
+			if r.Intn(5) == 0 {
+				k = 2 + r.Int63n(2)
+			}
+			total += k
+			ops = append(ops, hx.C("OAct", hx.C("AGPub", n, []int64{tag, n}, k)))
+		}
+		return
+	}
+	queued := round(0) // before anybody is full: every centre now holds this many events
+	nf := 1 + r.Intn(len(cs))
+	if nf == len(cs) && r.Intn(3) > 0 {
+		nf--
+	}
+	if nf == 0 {
+		nf = 1
+	}
+	full := cs[:nf]
+	for _, c := range full {
+		level := hx.Pick(r, []int64{996, 997, 998, 998, 999, 999, 999, 1000})
+		ops = append(ops, hx.C("OAct", hx.C("AGPub", 20+c, []int64{c}, level-queued)))
+		if r.Intn(2) == 0 {
+			ops = append(ops, hx.C("OAct", hx.C("AGPub", 20+c, []int64{c, 1}, 1+r.Int63n(3))))
+		}
+	}
+	rounds := 2 + r.Intn(4)
+	for i := 0; i < rounds; i++ {
+		round(int64(i + 1))
+		if r.Intn(2) == 0 {
+			// the owner of a full centre handles a few events: it has room again
+			ops = append(ops, hx.C("ODrain", hx.Pick(r, full), 1+r.Int63n(3)))
+		}
+		if r.Intn(6) == 0 {
+			c := hx.Pick(r, cs)
+			ops = append(ops, hx.C("OAct", hx.C("AUnsub", c, 1+r.Int63n(ns), 1+r.Int63n(int64(len(cs))*(ns+1)))))
+		}
+	}
+	isFull := map[int64]bool{}
+	for _, c := range full {
+		isFull[c] = true
+	}
+	for _, c := range cs {
+		if isFull[c] || r.Intn(3) == 0 {
+			ops = append(ops, hx.C("ODiscard", c, 1200))
+		} else {
+			ops = append(ops, hx.C("ODrain", c, 50), hx.C("ODiscard", c, 1200))
+		}
+	}
+	round(9) // everybody has room again
+	for _, c := range cs {
+		ops = append(ops, hx.C("ODiscard", c, 1200))
 	}
 	return ops
 }
@@ -253,13 +339,25 @@ func tagsOf(trace []any) (tags []string, nontrivial bool) {
 			set["chan-publish"] = true
 		case "VGPub":
 			set["global-publish"] = true
+			nfull, nroom := 0, 0
 			for _, q := range t.Args[3].([]any) {
 				if q.(int64) >= 999 {
 					set["queue-full"] = true
+					nfull++
+				} else if q.(int64) > 0 {
+					nroom++
 				}
+			}
+			if nfull > 0 && nroom > 0 {
+				set["full-and-served-centres"] = true
 			}
 		case "VDeq":
 			set["drain"] = true
+		case "VDrop":
+			set["bulk-receive"] = true
+			if len(t.Args[1].([]any)) > 0 {
+				nontrivial = true
+			}
 		case "VDeadlock":
 			set["blocked"] = true
 		}
@@ -321,6 +419,13 @@ func Run(cfg *hx.Config) error {
 		}
 		for v := 0; v < nb; v++ {
 			jobs = append(jobs, job{"boundary", genBoundary(cfg.Rng, v)})
+		}
+		nfill := 60
+		if cfg.Tier == "thorough" {
+			nfill = 600
+		}
+		for v := 0; v < nfill; v++ {
+			jobs = append(jobs, job{"global-fill", genFill(cfg.Rng)})
 		}
 		for i := 0; i < cfg.N; i++ {
 			maxLen := 10
